@@ -493,9 +493,14 @@ OomAbort(s, ser) ==
 \* allocation failure later in the same request reports NoMemory although the queue has changed.
 Dev_OomKeepsQueueChange(s, ser, kind, n, f) ==
   LET q == QOf(queue, n)
-      q2 == IF kind = "req" THEN Acquire(q, s, Flags(f)).q ELSE Without(q, s) IN
+      F == Flags(f)
+      \* (a queued requester that would take the name over: its entry is refreshed and moved right behind the primary
+      \* owner outside the transaction; only the exchange of the two is rolled back)
+      q2 == IF kind = "req" THEN (IF Acquire(q, s, F).w = NoSlot THEN Acquire(q, s, F).q
+                                  ELSE After1(Without(q, s), [s |-> s, ar |-> F.ar, dnq |-> F.dnq]))
+            ELSE Without(q, s) IN
   /\ CanTalk(s) /\ cst[s] = "active" /\ NameClass(n) = "ok"
-  /\ IF kind = "req" THEN q # <<>> /\ Acquire(q, s, Flags(f)).w = NoSlot /\ HeldCount(queue, s) < cfg.maxNames
+  /\ IF kind = "req" THEN q # <<>> /\ (Acquire(q, s, F).w = NoSlot \/ InQ(q, s)) /\ HeldCount(queue, s) < cfg.maxNames
      ELSE q # <<>> /\ InQ(q, s) /\ q[1].s # s
   /\ queue' = PutQ(queue, n, q2)
   /\ out' = <<To(s, Msg(3, BUS, <<>>, 0, ser, <<>>, <<>>, <<>>, E_NoMemory, <<>>, <<>>, 1, 0, "errtext"))>>
